@@ -530,23 +530,42 @@ def ufuncInput : Val → M (NDA GQ × Kind)
   | .raw (.arr a k np) => if np then .ok (a, k) else .error .notImpl
 
 /-- rebuild after a ufunc call: `Field(self.mesh, nvdim=result.shape[-1], value=result,
-vdims=self.vdims, vdim_mapping=self.vdim_mapping)`; every failure is `NotImplementedError` -/
-def ufuncWrap (self : CF) (res : NDA GQ) (k : Kind) : M CF :=
+vdims=self.vdims, valid=valid, vdim_mapping=self.vdim_mapping)`; every failure is
+`NotImplementedError` -/
+def ufuncWrap (self : CF) (res : NDA GQ) (k : Kind) (valid : NDA Bool) : M CF :=
   if res.shape.dropLast ≠ self.mesh.n then .error .notImpl
   else
-    match mkField self.mesh (lastAx res.shape) (.arr res) k self.vdims none (some self.vmap) none with
+    match mkField self.mesh (lastAx res.shape) (.arr res) k self.vdims (some valid) (some self.vmap) none with
     | .error _ => .error .notImpl
     | .ok g => .ok g
 
-/-- unary ufunc -/
+/-- `self.mesh.allclose(m)` for one ufunc input (non-fields have no mesh) -/
+def ufuncMeshOk (self : CF) : Val → M Unit
+  | .fld f =>
+    match meshAllclose self.mesh f.mesh with
+    | .error e => .error e
+    | .ok false => .error .value
+    | .ok true => .ok ()
+  | .raw _ => .ok ()
+
+/-- unary ufunc: mesh check (of `self` against itself), validity of the one field input -/
 def ufunc1 (fn : GQ → GQ) (rk : Kind → Kind) (self : CF) : M CF :=
-  ufuncWrap self (self.data.map fn) (rk self.kind)
+  match ufuncMeshOk self (.fld self) with
+  | .error e => .error e
+  | .ok _ => ufuncWrap self (self.data.map fn) (rk self.kind) self.valid
 
 /-- the field whose mesh and labels a binary ufunc call reuses: the first field input -/
 def firstFld : Val → Val → Option CF
   | .fld f, _ => some f
   | _, .fld g => some g
   | _, _ => none
+
+/-- `np.logical_and.reduce([x.valid for x in inputs if isinstance(x, Field)])` -/
+def ufuncValid (self : CF) : Val → Val → NDA Bool
+  | .fld f, .fld o => NDA.zipWith (fun x y => x && y) f.valid o.valid
+  | .fld f, .raw _ => f.valid
+  | .raw _, .fld o => o.valid
+  | .raw _, .raw _ => self.valid
 
 /-- binary ufunc; `self` is the first field among the inputs -/
 def ufunc2 (fn : GQ → GQ → GQ) (pw : Bool) (l r : Val) : M CF :=
@@ -559,11 +578,17 @@ def ufunc2 (fn : GQ → GQ → GQ) (pw : Bool) (l r : Val) : M CF :=
       match ufuncInput r with
       | .error e => .error e
       | .ok (b, kb) =>
-        if negIntPow pw ka kb b then .error .value
-        else
-          match npBin fn a b with
+        match ufuncMeshOk self l with
+        | .error e => .error e
+        | .ok _ =>
+          match ufuncMeshOk self r with
           | .error e => .error e
-          | .ok res => ufuncWrap self res (ka.join kb)
+          | .ok _ =>
+            if negIntPow pw ka kb b then .error .value
+            else
+              match npBin fn a b with
+              | .error e => .error e
+              | .ok res => ufuncWrap self res (ka.join kb) (ufuncValid self l r)
 
 /-! ## Expression trees -/
 
@@ -787,26 +812,9 @@ def Expr.leaves : Expr → List Nat
   | .un _ e => e.leaves
   | .bin _ l r => l.leaves ++ r.leaves
 
-def isUfuncUn : UnOp → Bool
-  | .unegative | .upositive | .uabsolute | .usquare | .uconjugate | .usign => true
-  | _ => false
-
 def isUfuncBin : BinOp → Bool
   | .uadd | .usub | .umul | .udiv | .umax | .umin | .upow => true
   | _ => false
-
-/-- is the sub-expression a NumPy object (it then dispatches to `__array_ufunc__` when it
-stands on the left of a field)? -/
-def npLeft : Expr → Bool
-  | .opd o => isNp o
-  | _ => false
-
-/-- does the expression go through the ufunc protocol anywhere? -/
-def Expr.usesUfunc : Expr → Bool
-  | .leaf _ => false
-  | .opd _ => false
-  | .un u e => isUfuncUn u || e.usesUfunc
-  | .bin b l r => isUfuncBin b || npLeft l || l.usesUfunc || r.usesUfunc
 
 /-- **the same expression evaluated at one cell** under NumPy broadcasting: every field
 leaf contributes the component list of cell `i`, a number a one-element list, an
@@ -820,15 +828,15 @@ def evalCell (env : Env) : Expr → List Nat → List GQ
   | .un u e, i => (evalCell env e i).map (unFn env u)
   | .bin b l r, i => binCell env b (evalCell env l i) (evalCell env r i)
 
-/-- validity of cell `i` of the result: AND over the field operands for the operator
-paths; the ufunc protocol does not pass `valid` on (all `True`) -/
+/-- validity of cell `i` of the result: AND over the field operands, on every path
+(operators and, since the repair of D22, the ufunc protocol) -/
 def validCell (env : Env) : Expr → List Nat → Bool
   | .leaf k, i =>
     match env.fields[k]? with
     | some f => f.valid.get i
     | none => true
   | .opd _, _ => true
-  | .un u e, i => if isUfuncUn u then true else validCell env e i
-  | .bin b l r, i => if isUfuncBin b || npLeft l then true else validCell env l i && validCell env r i
+  | .un _ e, i => validCell env e i
+  | .bin _ l r, i => validCell env l i && validCell env r i
 
 end DFV.C03
